@@ -1404,7 +1404,7 @@ func main() {
 	run.Footer = "Definition M := Eval vm_compute in mismatches cases.\nPrint M."
 	run.CaseType = "case"
 	run.ShardSize = 100
-	run.Rule = "scenario scripts for Orchestrator (services fresh/running/finished x Add before start / while running / racing cancel / after cancel), Group (cancel after grace / during member start / never / before start), WorkerPool+HandlerWorkerPool (1..4 workers, continue-on-error/panic on/off, unlimited/bounded queue, direct and via srv.WithWorkerPool), Cleanup (direct and via srv.WithCleanup); outcomes ok/err/pan/blk/blkerr per item. One evaluation = one execution of a scenario on the real code with its recorded event log. distinct = distinct scenario scripts; non-trivial = at least 2 items, at least one failing or blocking item, and (except Group) at least one item added after start"
+	run.Rule = "scenario scripts for Orchestrator (services fresh/running/finished/raced = started by their owner while the orchestrator picks them up, also placed with the srv yield hooks; Add before start / while running / racing cancel / after cancel), Group (cancel after grace / during member start / never / before start), WorkerPool+HandlerWorkerPool (1..4 workers, continue-on-error/panic on/off, unlimited/bounded queue, direct and via srv.WithWorkerPool), Cleanup (direct and via srv.WithCleanup); outcomes per item: ok/err/pan/blk/blkerr or a control-valued error that is or wraps io.EOF, context.Canceled, context.DeadlineExceeded, ErrIteratorSkip, ErrCurrentOpAbort. One evaluation = one execution of a scenario on the real code with its recorded event log. distinct = distinct scenario scripts; non-trivial = at least 2 items, at least one failing or blocking item, and (except Group) at least one item added after start"
 
 	if run.Replay != "" {
 		var c Case
@@ -1507,8 +1507,14 @@ func main() {
 		if c.ViaCtx {
 			run.Count(c.Kind + "/via-context-helpers")
 		}
+		if c.Hook != "" {
+			run.Count("orch/hook=" + c.Hook)
+		}
 		for _, it := range c.Items {
 			run.Count(fmt.Sprintf("%s/item oc=%s", c.Kind, it.Oc))
+			if it.Kind == "raced" {
+				run.Count("orch/item kind=raced")
+			}
 			if c.Kind != "group" {
 				run.Count(fmt.Sprintf("%s/item phase=%d", c.Kind, it.Phase))
 			}
